@@ -50,7 +50,12 @@ func (f *DelayFilter) Run(ctx context.Context) { //nolint:cyclop
 		case <-ctx.Done():
 			return
 		case <-f.push:
-			next := f.queue.peek().(timedChunk) //nolint:forcetypeassert
+			next, ok := f.queue.peek().(timedChunk)
+			if !ok {
+				// The chunk of this notification was already due and has
+				// been forwarded by the timer branch below: nothing to schedule.
+				continue
+			}
 			if !timer.Stop() {
 				<-timer.C
 			}
